@@ -90,7 +90,7 @@ func init() {
 
 	stdProp(&PropSpec{
 		ID: "C12", Level: "exploration",
-		Verdict: []string{"collide.", "res.map", "deep.", "struct.", "witness.verify", "flag.", "reach.", "order", "panic", "reopen"},
+		Verdict: []string{"collide.", "res.map", "deep.", "struct.", "witness.verify", "flag.", "reach.", "order", "panic", "reopen", "reg.parse"},
 		Rule: "root maps created with adversarial harness digesters: per-level alphabet sizes drawn independently from {1,2,3,5,64,unbounded} for 1-4 levels (all levels collide, first only, deep only ...), collision limit drawn from {0,1,2,3,7,255} and, in two runs out of three, changed between operations (groups formed under a generous limit then exceed a stricter one); insert/update/remove/pop histories over those keys with value sizes that push inline groups over the element limit (spill to an external group) and back (collapse); dictionary semantics step by step, group structure by the independent parser (nesting levels, digest order, external groups flagged and referenced once), iteration order incl. insertion order among full collisions, and the limit rule computed by the model from its own digest table (refusal = CollisionLimitError, no trace in write set or would-be committed bytes; updates always accepted). Non-trivial = an inline group existed, and a spill or a last-level list or a limit refusal occurred; distinct by trace hash",
 		ExpectedReach: []string{"reach.inline-group", "reach.external-group", "reach.last-level-list", "reach.group-level>=2", "c12.limit-refusal-predicted", "res.map.update"},
 	}, stdHooks{
